@@ -45,12 +45,9 @@ type MakeList struct {
 // Call the function with the arguments provided.
 func (f *MakeList) Call(s *slip.Scope, args slip.List, depth int) slip.Object {
 	slip.CheckArgCount(s, depth, f, args, 1, 3)
-	size, ok := args[0].(slip.Fixnum)
-	if !ok || size < 0 {
-		slip.TypePanic(s, depth, "size", args[0], "fixnum")
-	}
+	size := slip.CheckDimension(s, depth, "size", args[0])
 	ie, _ := slip.GetArgsKeyValue(args[1:], slip.Symbol(":initial-element"))
-	list := make(slip.List, int(size))
+	list := make(slip.List, size)
 	for i := len(list) - 1; 0 <= i; i-- {
 		list[i] = ie
 	}
